@@ -223,4 +223,33 @@ have [->|Nb] := eqVneq b1 1%N; first by rewrite /= cons_neq_self.
 by rewrite /= ?(negbTE Nb) ?eqxx.
 Qed.
 
+
+(* root_inv_decomposition's check of initial_vectors.shape lets through exactly ( *batch, n, k ) and, for an operator
+   without batch dimensions, the 1-D shape (n) *)
+Definition root_inv_accepts (batch : seq nat) (n : nat) (ivs : seq nat) : bool :=
+  ((batch == [::]) && (ivs == [:: n]))
+  || [&& size ivs == (size batch).+2, take (size batch) ivs == batch & nth 0%N ivs (size batch) == n].
+
+Theorem root_inv_guard_spec (batch : seq nat) (n : nat) (ivs : seq nat) :
+  root_inv_guard_raises batch n ivs = ~~ root_inv_accepts batch n ivs.
+Proof.
+rewrite /root_inv_guard_raises /root_inv_accepts.
+have [E1|N1] := boolP ((size batch + 2 == 2)%N && (size ivs == 1%N)).
+  have Eb : batch = [::] by move/andP: E1 => [/eqP E _]; apply: size0nil; lia.
+  have [x Ex] : exists x, ivs = [:: x] by case: ivs E1 => [|x [|y r]] //=; rewrite ?andbF //; exists x.
+  rewrite Eb Ex /= muln1 eqseq_cons eqxx andbT orbF.
+  by rewrite eq_sym.
+have [Es|Ns] := eqVneq (size batch + 2)%N (size ivs); last first.
+  rewrite /=; apply/esym.
+  rewrite negb_or; apply/andP; split.
+    apply/negP => /andP[/eqP Eb /eqP Ei]; move: N1 Ns; rewrite Eb Ei /=; by [].
+  by apply/negP => /and3P[/eqP E _ _]; move: Ns; rewrite E addn2 eqxx.
+have E2 : (size ivs - 2 = size batch)%N by lia.
+rewrite /= E2.
+have -> : (size ivs == (size batch).+2) = true by apply/eqP; lia.
+have -> : (batch == [::]) && (ivs == [:: n]) = false.
+  apply/negbTE/negP => /andP[/eqP Eb /eqP Ei]; move: N1; rewrite Eb Ei /=; by [].
+by rewrite /= negb_and eq_sym [n == _]eq_sym.
+Qed.
+
 End Shapes.
